@@ -27,6 +27,7 @@ def optHex (o : Option Bytes) : String := match o with | some b => "some:" ++ to
 structure ASt where
   a : Adapter.A := ⟨LRU.Cap.init 1 1, []⟩
   v : LRU.Variant := LRU.Variant.current
+  stored : Int := 0
 
 def aDump (st : ASt) : String := s!"mem={hexList st.a.mem.keys} db={showKV st.a.db}"
 
@@ -38,10 +39,27 @@ def aStep (st : ASt) (toks : List String) : ASt × String :=
   | ["put", k, v, sz] =>
     match parseHex k, parseHex v, sz.toInt? with
     | some k, some v, some sz =>
-      let (a, sp) := st.a.put st.v k v sz
-      let st := { st with a := a }
+      let (x, sp) := (Adapter.AL.mk st.a st.stored).put st.v k v sz
+      let st := { st with a := x.a, stored := x.stored }
       (st, boolStr sp ++ " | " ++ aDump st)
     | _, _, _ => (st, "bad-op")
+  | ["hoa", k, v, sz] =>
+    match parseHex k, parseHex v, sz.toInt? with
+    | some k, some v, some sz =>
+      let (x, has, sp) := (Adapter.AL.mk st.a st.stored).hasOrAdd st.v k v sz
+      let st := { st with a := x.a, stored := x.stored }
+      (st, boolStr has ++ boolStr sp ++ " | " ++ aDump st)
+    | _, _, _ => (st, "bad-op")
+  | ["rm", k] =>
+    match parseHex k with
+    | some k =>
+      let x := (Adapter.AL.mk st.a st.stored).remove k
+      let st := { st with a := x.a, stored := x.stored }
+      (st, aDump st)
+    | none => (st, "bad-op")
+  | ["clear"] => let st := { st with a := st.a.clear }; (st, aDump st)
+  | ["len"] => (st, toString (Adapter.AL.mk st.a st.stored).len)
+  | ["keys"] => (st, hexList (sortBytes st.a.keys))
   | ["get", k] =>
     match parseHex k with
     | some k => let (a, r) := st.a.get k; let st := { st with a := a }; (st, optHex r ++ " | " ++ aDump st)
